@@ -271,6 +271,13 @@ fn judge<F: Fl>(c: &Case, levels: &[f64], l: &mut Local) {
                     _ => false,
                 };
                 if !pos {
+                    // outside the proviso no interval is owed; but a two-sided interval that is returned all
+                    // the same is an interval like any other (well-formed, around the estimate, nested)
+                    if k == Kind::Two {
+                        if let Out::Ok(o) = call(|| st.ci_mean(conf(k, lv))).map(|i| F::obs(&i)) {
+                            return Out::Ok(o);
+                        }
+                    }
                     return Out::Err(crate::api::ErrFam::StringError, "outside the positivity proviso".into());
                 }
                 call(|| st.ci_mean(conf(k, lv))).map(|i| F::obs(&i))
@@ -340,8 +347,14 @@ fn judge<F: Fl>(c: &Case, levels: &[f64], l: &mut Local) {
         }
         Prod::QuantileElements => {
             // distinct, strictly increasing data so that element intervals mirror the ranks
-            let q = c.q;
-            let n = c.n.min(400);
+            // one input in five is larger than any fixed buffer or sort/selection threshold one might pick
+            // (1024, 2048, 4096): 2049 .. 5048 observations
+            let big = c.a.seed % 5 == 0;
+            let n = if big { 2049 + (c.a.seed / 5 % 3000) as usize } else { c.n.min(400) };
+            let q = if big { c.q.clamp(8.0 / n as f64, 1.0 - 8.0 / n as f64) } else { c.q };
+            if big {
+                l.count("quantile::ci on more than 2048 observations");
+            }
             let data: Vec<f64> = (0..n).map(|i| i as f64 * 0.5 - 3.0).collect();
             let mut shuffled = data.clone();
             Rng::new(c.a.seed).shuffle(&mut shuffled);
@@ -422,7 +435,7 @@ pub fn run(run: &Arc<Run>) {
     let seed = run.cfg.seed;
     let levels = level_grid(seed, 8);
     run.set_rule(
-        "9 producers (Arithmetic, Geometric, Harmonic (inside the positivity proviso), Paired, Unpaired for f32/f64; proportion::ci and its front-ends ci_wilson_ratio / Stats::ci / ci_true in rotation, ci_z_normal, quantile::ci_indices, quantile::ci) x seeded admissible inputs x the whole level grid (26 levels incl. dyadic ones and levels < 1/2) x 3 kinds: \
+        "9 producers (Arithmetic, Geometric, Harmonic (inside the positivity proviso), Paired, Unpaired for f32/f64; proportion::ci and its front-ends ci_wilson_ratio / Stats::ci / ci_true in rotation, ci_z_normal, quantile::ci_indices, quantile::ci) x seeded admissible inputs x the whole level grid (28 levels incl. dyadic ones, levels < 1/2 and two seeded tail levels) x 3 kinds: \
          (a) one-sided(L) bound = two-sided(2L-1) bound (bit-exact at dyadic L, 1e-12 of the half-width otherwise; ranks exactly), (b) CI(L1) included in CI(L2) for all ordered level pairs at least 1e-3 apart in probability, judged by the crate's includes() and by the extended-real model on the raw bounds, \
          (c) two-sided intervals and one-sided ones at L >= 1/2 contain the point estimate (ranks: within one position), (d) result kind / natural far ends match the confidence. distinct = (producer, confidence, interval) fingerprints.",
     );
@@ -473,7 +486,7 @@ pub fn run(run: &Arc<Run>) {
             judge::<f64>(&c, &levels, l)
         }
     });
-    let mut req: Vec<String> = vec!["result kind judged".into(), "point estimate containment judged".into(), "2L-1 identity judged".into(), "2L-1 identity judged bit-exactly (dyadic level)".into(), "nesting judged".into(), "input beyond the t->z switch (n > 100 001)".into(), "constant (zero-variance) input".into(), "constant (zero-variance) input:Arithmetic".into(), "constant (zero-variance) input:Paired".into(), "order-independence groups judged".into(), "ratio front-end containment judged".into(), "proportion front-end:proportion::ci".into(), "proportion front-end:proportion::ci_wilson_ratio".into(), "proportion front-end:proportion::Stats::ci".into(), "proportion front-end:proportion::ci_true".into()];
+    let mut req: Vec<String> = vec!["result kind judged".into(), "point estimate containment judged".into(), "2L-1 identity judged".into(), "2L-1 identity judged bit-exactly (dyadic level)".into(), "nesting judged".into(), "input beyond the t->z switch (n > 100 001)".into(), "constant (zero-variance) input".into(), "constant (zero-variance) input:Arithmetic".into(), "constant (zero-variance) input:Paired".into(), "order-independence groups judged".into(), "ratio front-end containment judged".into(), "quantile::ci on more than 2048 observations".into(), "proportion front-end:proportion::ci".into(), "proportion front-end:proportion::ci_wilson_ratio".into(), "proportion front-end:proportion::Stats::ci".into(), "proportion front-end:proportion::ci_true".into()];
     for p in PRODS {
         req.push(format!("producer:{:?}", p));
     }
